@@ -106,7 +106,9 @@ func bases(thorough bool) []string {
 	minors := []string{"0", "1", "9", "10"}
 	patches := []string{"0", "1", "8", "9", "10", "99", "199", "999", "18446744073709551615", "99999999999999999999", "100000000000000000000"}
 	pres := []string{"", "-0", "-1", "-a", "-B", "-a.0", "-0.a", "-a-b", "-9", "-10", "-pre", "-pre.1", "--", "-0-0", "-0.0", "-rc.0.1", "-0.20190101000000-abcdefabcdef", "-pre.0.20190101000000-abcdefabcdef"}
-	builds := []string{"", "+incompatible", "+a", "+meta.1", "+0", "+incompatible.x", "+meta-data", "+x-", "+a-b.5-c"}
+	builds := []string{"", "+incompatible", "+a", "+meta.1", "+0", "+incompatible.x", "+meta-data", "+x-", "+a-b.5-c",
+		// counts of identifiers in the build metadata: 3, 4, 9
+		"+a.b.c", "+exp.sha.5114", "+build.2021.03.04", "+1.2.3.4.5.6.7.8.9", "+incompatible.a.b"}
 	if !thorough {
 		majors = []string{"0", "1", "2", "10"}
 		minors = []string{"0", "9"}
